@@ -101,6 +101,44 @@ def analyse_class(model, cls, input_dims_spec=None, output_spec=None, units=BASE
     return b, S, ev
 
 
+def analyse_function(model, fname, arg_dims_spec, units=BASE_UNITS, seeds=None, opaque=None, symbols=(),
+                     self_cls=None, self_params=(), param_dims_spec=None):
+    """Dimension fold over ONE function interpreted for symbolic arguments.
+    arg_dims_spec: {argument name: spec or None (unknown)}."""
+    fi = model.get_func(fname)
+    b = Builder(model)
+    for f in (opaque or {}):
+        model.get_func(f)
+    b.opaque = dict(opaque or {})
+    from .vg import Frame
+    b.frame = Frame(None, fi.module, {}, None)
+    args = []
+    names = [a.arg for a in fi.node.args.args]
+    self_node = None
+    for nm in names:
+        if nm == 'self' and self_cls is not None:
+            self_node = b.symbolic_obj(self_cls, list(self_params))
+            continue
+        args.append(b.mk('input', nm))
+    ret = b.run_function(fi, args, self_node=self_node)
+    S = DimSystem(list(symbols) + list(self_params) + list((opaque or {}).values()), units=units)
+    ind = {}
+    for nm, spec in (arg_dims_spec or {}).items():
+        if nm not in names:
+            raise AnalysisError('argument %s vanished from %s' % (nm, fname))
+        if spec is not None:
+            ind[nm] = S.from_spec(spec)
+    pd = {k: S.from_spec(v) for k, v in (param_dims_spec or {}).items()}
+    for k in (opaque or {}).values():
+        pd.setdefault(k, S.dimless())
+    ev = DimEval(S, input_dims=ind, param_dims=pd)
+    for node, spec in seed_nodes(b, seeds):
+        ev.memo[node.nid] = S.from_spec(spec)
+        ev.seeded = getattr(ev, 'seeded', 0) + 1
+    ev.run(b.trace)
+    return b, S, ev, ret
+
+
 def findings_from(S, ev, prop, rule, result, scope_files=None):
     if not S.inconsistencies:
         return
